@@ -77,6 +77,32 @@ fn traced_props(x: u32) -> u32 {
     x + 7
 }
 
+/// An argument whose formatting is observable: property format strings may only be evaluated for
+/// spans that record, so never in this build.
+struct Obs(u32);
+impl std::fmt::Display for Obs {
+    fn fmt(&self, f: &mut std::fmt::Formatter<'_>) -> std::fmt::Result {
+        CLOSURES.fetch_add(1, Ordering::SeqCst);
+        write!(f, "obs{}", self.0)
+    }
+}
+impl std::fmt::Debug for Obs {
+    fn fmt(&self, f: &mut std::fmt::Formatter<'_>) -> std::fmt::Result {
+        CLOSURES.fetch_add(1, Ordering::SeqCst);
+        write!(f, "Obs({})", self.0)
+    }
+}
+
+#[fastrace::trace(properties = { "o": "{o}", "od": "{o:?} and {x}" })]
+fn traced_obs(o: Obs, x: u32) -> u32 {
+    x + o.0
+}
+
+#[fastrace::trace(properties = { "o": "<{o}>" })]
+async fn traced_obs_async(o: Obs) -> u32 {
+    o.0 + 1
+}
+
 #[fastrace::trace]
 async fn traced_async(x: u32) -> u32 {
     x + 3
@@ -308,6 +334,19 @@ fn main() {
                 "push_child_spans"
             }
             21 => {
+                if traced_obs(Obs(2), 5) != 7 {
+                    bad("trace-macro-changed-result", "a #[trace] function with properties returned a different value".to_string());
+                }
+                {
+                    let waker = futures::task::noop_waker();
+                    let mut cx = Context::from_waker(&waker);
+                    let mut f = Box::pin(traced_obs_async(Obs(4)));
+                    if let Poll::Ready(v) = f.as_mut().poll(&mut cx) {
+                        if v != 5 {
+                            bad("trace-macro-changed-result", "an async #[trace] function with properties returned a different value".to_string());
+                        }
+                    }
+                }
                 if traced_sync(3) != 7 || traced_props(1) != 8 {
                     bad("trace-macro-changed-result", "a #[trace] function returned a different value".to_string());
                 }
@@ -368,9 +407,23 @@ fn main() {
                 "other_thread"
             }
             27 => {
-                let c = SpanContext::new(TraceId(rng.next() as u128), SpanId(rng.next()));
-                if SpanContext::decode_w3c_traceparent(&c.encode_w3c_traceparent()).map(|d| d.trace_id) != Some(c.trace_id) {
-                    bad("codec", "traceparent codec does not round trip in a disabled build".to_string());
+                // the text codecs are plain functions: they work the same with tracing compiled out
+                let tid = ((rng.next() as u128) << 64 | rng.next() as u128) >> (rng.below(128) as u32);
+                let c = SpanContext::new(TraceId(tid), SpanId(rng.next() >> rng.below(64))).sampled(rng.below(2) == 0);
+                let enc = c.encode_w3c_traceparent();
+                match SpanContext::decode_w3c_traceparent(&enc) {
+                    Some(d) if d.trace_id == c.trace_id && d.span_id == c.span_id && d.sampled == c.sampled => {}
+                    other => bad("codec", format!("disabled build: decode(encode({:?})) = {:?} via {:?}", c, other, enc)),
+                }
+                if enc.len() != 55 || !enc.starts_with("00-") {
+                    bad("codec", format!("disabled build: encode gives {:?}", enc));
+                }
+                if SpanContext::decode_w3c_traceparent(&format!("{}-0", enc)).is_some() || SpanContext::decode_w3c_traceparent("01-0-0-00").is_some() || SpanContext::decode_w3c_traceparent("00-xyz-1-01").is_some() {
+                    bad("codec", "disabled build: malformed traceparent text was accepted".to_string());
+                }
+                use std::str::FromStr;
+                if TraceId::from_str(&c.trace_id.to_string()).ok() != Some(c.trace_id) || SpanId::from_str(&c.span_id.to_string()).ok() != Some(c.span_id) {
+                    bad("codec", format!("disabled build: Display/FromStr of {:?} do not round trip", c));
                 }
                 "codec"
             }
